@@ -376,12 +376,20 @@ def result_is_used(b, local):
             how.append("yield")
     if not how:
         return False, "result is never inspected (dropped or ignored)"
-    if set(how) == {"match"}:
+    from facts import iter_places_read
+    ty = b.local_ty(local)
+    # a hand-written match that tells the variants of the error enum apart (`Err(Cancelled(..)) => ..`) has an arm of its own for the
+    # cancellation; that arm must take the payload out, whatever the other arms do with theirs (seed C15-12: `Err(Cancelled(_)) => break`
+    # next to `Err(err) => return Err(err)`)
+    nested = False
+    if "PropagationError" in ty or "UnsolvableOrCancelled" in ty:
+        for bb, j, p, kind in iter_places_read(b):
+            if p["l"] == local and kind == "discr" and [e.get("as") for e in p.get("p", []) if isinstance(e, dict) and "as" in e] == ["Err"]:
+                nested = True
+    if set(how) == {"match"} or ("match" in how and nested):
         # a hand-written match must take the cancellation payload out of the Err arm
-        ty = b.local_ty(local)
         want_variant = "Cancelled" if ("PropagationError" in ty or "UnsolvableOrCancelled" in ty) else "Err"
         taken = False
-        from facts import iter_places_read
         for bb, j, p, kind in iter_places_read(b):
             if p["l"] != local or kind in ("discr",):
                 continue
